@@ -34,4 +34,8 @@ static vobj MS_DEREF(vobj p)
 }
 /* bit-for-bit equality of doubles up to NaN payload */
 #define SAME(a, b) ((a) == (b) || ((a) != (a) && (b) != (b)))
+/* rule VD: a virtual member call made from a base-class default body; the dynamic type decides the target, so value and messages are arbitrary */
+int __VERIFIER_nondet_int(void);
+double __VERIFIER_nondet_double(void);
+static Sc VF_VIRTUAL_DISPATCH(void) { ghost_msg = __VERIFIER_nondet_int(); return __VERIFIER_nondet_double(); }
 #endif
